@@ -53,6 +53,13 @@ theorem tie_cond :
                      "call timex.Since", "return", "case recv timer.C:", "return", "}"]
     ∧ condSignalShape = ["select{", "case send cond.signal:", "default:", "}"] := by decide
 
+/-- the condition variable is an UNBUFFERED channel (a Signal is a rendezvous with one parked receiver or is
+lost — what ModelTL's `deliver` / `signalLost` are), and `WaitWithTimeout` reports `ok = true` only on the
+signal branch, `0,false` on the timer branch. -/
+theorem tie_cond_channel :
+    newCondDetails = ["make chan lang.PlaceholderType cap=0"]
+    ∧ condWaitResults = ["return remainTimeout, true", "return 0, false"] := by decide
+
 /-! ### threading.TaskRunner -/
 
 theorem tie_runner : Programs.runner.tags = trWaitShape ++ scheduleShape ++ scheduleImmShape := by decide
@@ -116,6 +123,33 @@ theorem tie_goSafe :
 theorem tie_workerGroup :
     workerGroupShape = ["call NewRoutineGroup", "for i < wg.workers {", "call group.RunSafe", "}", "call group.Wait"] := by
   decide
+
+/-- `RoutineGroup.Wait/Run/RunSafe` are the rows of `Programs.routineGroup` (Add before the spawn, Done in
+the spawned function's defer). -/
+theorem tie_routineGroup : Programs.routineGroup.tags = rgWaitShape ++ rgRunShape ++ rgRunSafeShape := by decide
+
+/-- `Barrier.Guard` = `Guard(&b.lock, fn)` = Lock, deferred Unlock, fn. -/
+theorem tie_barrier :
+    barrierGuardShape = ["call Guard"] ∧ Programs.barrierGuard.tags = guardShape := by decide
+
+/-! ### configuration decision tables -/
+
+/-- `WithWorkers` of mr and fx: the branch `workers < minWorkers` stores `minWorkers`, the other one the
+argument; `minWorkers = 1` — this is `effWorkers`. -/
+theorem tie_workers_table :
+    mrWithWorkersStores = ["store opts.workers = minWorkers", "store opts.workers = workers"]
+    ∧ fxWithWorkersStores = ["store opts.workers = minWorkers", "store opts.workers = workers"]
+    ∧ (∀ k : Int, effWorkers k = if k < mrMinWorkers then mrMinWorkers else k)
+    ∧ (∀ k : Int, effWorkers k = if k < fxMinWorkers then fxMinWorkers else k) := by
+  refine ⟨by decide, by decide, ?_, ?_⟩ <;> intro k <;> unfold effWorkers <;>
+    simp only [mrMinWorkers, fxMinWorkers] <;> split <;> rename_i h <;> simp [h]
+
+/-- the REST engine installs `handler.MaxConnsHandler(ng.conf.MaxConns)` exactly under
+`ng.conf.Middlewares.MaxConns` (no else branch), once per route chain; `MaxConnsHandler` is a pass-through
+for `n <= 0` (first rows of `maxConnsShape`, `tie_maxConns`) — this is `engineCap`. -/
+theorem tie_engine_wiring :
+    engineMaxConnsWiring = ["if ng.conf.Middlewares.MaxConns then handler.MaxConnsHandler(ng.conf.MaxConns)"]
+    ∧ maxConnsShape.take 6 = ["if n <= 0 {", "func{", "return", "}", "return", "}"] := by decide
 
 /-! ### syncx.Pool -/
 
